@@ -1308,3 +1308,9 @@ pub fn replay_path(run: &Run, replay: &Value) -> bool {
     }
     true
 }
+
+/// Nodes collected by a (parallel) visitor, in a canonical order: shortest path first, then by path labels.
+pub fn canonical_order(mut v: Vec<Node>) -> Vec<Node> {
+    v.sort_by_cached_key(|n| (n.path_len(), n.path_str()));
+    v
+}
